@@ -526,6 +526,24 @@ Definition extract_tree_without_taxa (taxa : list Z) := extract_wrapper (without
 Definition extract_tree_with_taxa_labels (ns : nspace) (labels : list Z) := extract_wrapper (with_labels_p ns labels).
 Definition extract_tree_without_taxa_labels (ns : nspace) (labels : list Z) := extract_wrapper (without_labels_p ns labels).
 
+(* the label wrappers after the repair notes/C08_fix_c.patch:
+     taxa = set(self.taxon_namespace.get_taxa(labels=labels))
+     node_filter_fn = lambda nd: nd.taxon is None or nd.taxon in taxa          (resp. not in taxa)
+   i.e. the labels are resolved by the namespace, under its case rule, exactly as in
+   prune_taxa_with_labels / retain_taxa_with_labels.  Which of the two forms the working tree has is
+   probed by the harness at run time and passed in the case (c_lab_ns). *)
+Definition extract_tree_with_taxa_labels_ns (ns : nspace) (cs : bool) (labels : list Z) :=
+  extract_wrapper (with_taxa_p (get_taxa ns cs labels)).
+Definition extract_tree_without_taxa_labels_ns (ns : nspace) (cs : bool) (labels : list Z) :=
+  extract_wrapper (without_taxa_p (get_taxa ns cs labels)).
+
+(* prune_taxa / prune_leaves_without_taxa reaching the seed: AttributeError (None.remove_child) in the
+   code as transcribed above; with notes/C03_fix_1.patch the same two places test for the seed first
+   and raise SeedNodeDeletionException.  Same place, same tree left behind, other exception class:
+   the class is probed by the harness and passed in the case (c_seed_err). *)
+Definition seed_err {A} (e : xerr) (r : ires A) : ires A :=
+  match r with IErr EAttr t => IErr e t | x => x end.
+
 (* what the harness sees of a new tree: nodes named base, base+1, ... in pre-order, and the
    extraction_source of each in the same order *)
 Fixpoint renum (t : tree) (n : Z) : tree * Z :=
@@ -576,6 +594,8 @@ Record case : Type := mkcase {
   c_ns : nspace;
   c_cs : bool;
   c_base : Z;
+  c_lab_ns : bool;          (* probed: the label wrappers of extract_tree resolve through the namespace *)
+  c_seed_err : xerr;        (* probed: exception class when prune_taxa / prune_leaves_without_taxa reach the seed *)
   c_steps : list (op * obs) }.
 
 Definition ob_eqb (a b : option bool) : bool :=
@@ -606,14 +626,15 @@ Definition check_new (c : case) (src : tree) (r : xres) (o : obs) : bool :=
 Definition step_ok (c : case) (so : op * obs) : bool :=
   let s := (c_tree c, c_rooted c) in
   let t := c_tree c in
+  let se {A} (r : ires A) := seed_err (c_seed_err c) r in
   match so with
-  | (PruneTaxa taxa u sp lf intn, o) => check_inplace (prune_taxa taxa u sp lf intn s) o
-  | (PruneLabels lbs u sp lf intn, o) => check_inplace (prune_taxa_with_labels (c_ns c) (c_cs c) lbs u sp lf intn s) o
-  | (RetainTaxa taxa u sp, o) => check_inplace (retain_taxa (c_ns c) taxa u sp s) o
-  | (RetainLabels lbs u sp, o) => check_inplace (retain_taxa_with_labels (c_ns c) (c_cs c) lbs u sp s) o
+  | (PruneTaxa taxa u sp lf intn, o) => check_inplace (se (prune_taxa taxa u sp lf intn s)) o
+  | (PruneLabels lbs u sp lf intn, o) => check_inplace (se (prune_taxa_with_labels (c_ns c) (c_cs c) lbs u sp lf intn s)) o
+  | (RetainTaxa taxa u sp, o) => check_inplace (se (retain_taxa (c_ns c) taxa u sp s)) o
+  | (RetainLabels lbs u sp, o) => check_inplace (se (retain_taxa_with_labels (c_ns c) (c_cs c) lbs u sp s)) o
   | (FilterLeaves ok rc u sp, o) => check_inplace (filter_leaf_nodes ok rc u sp s) o
   | (PruneSubtree id u sp, o) => check_inplace (prune_subtree id u sp s) o
-  | (PruneNoTaxa rc u sp, o) => check_inplace (prune_leaves_without_taxa rc u sp s) o
+  | (PruneNoTaxa rc u sp, o) => check_inplace (se (prune_leaves_without_taxa rc u sp s)) o
   | (SuppressUnif, o) => check_inplace (suppress_unifurcations s) o
   | (RemoveChild par id sp, o) => check_inplace (remove_child par id sp s) o
   | (Extract flt sp, o) => check_new c t (extract_tree flt sp t) o
@@ -624,8 +645,12 @@ Definition step_ok (c : case) (so : op * obs) : bool :=
     end
   | (ExtractWithTaxa taxa sp, o) => check_new c t (extract_tree_with_taxa taxa sp t) o
   | (ExtractWithoutTaxa taxa sp, o) => check_new c t (extract_tree_without_taxa taxa sp t) o
-  | (ExtractWithLabels lbs sp, o) => check_new c t (extract_tree_with_taxa_labels (c_ns c) lbs sp t) o
-  | (ExtractWithoutLabels lbs sp, o) => check_new c t (extract_tree_without_taxa_labels (c_ns c) lbs sp t) o
+  | (ExtractWithLabels lbs sp, o) =>
+    check_new c t (if c_lab_ns c then extract_tree_with_taxa_labels_ns (c_ns c) (c_cs c) lbs sp t
+                   else extract_tree_with_taxa_labels (c_ns c) lbs sp t) o
+  | (ExtractWithoutLabels lbs sp, o) =>
+    check_new c t (if c_lab_ns c then extract_tree_without_taxa_labels_ns (c_ns c) (c_cs c) lbs sp t
+                   else extract_tree_without_taxa_labels (c_ns c) lbs sp t) o
   end.
 
 Definition case_ok (c : case) : bool := forallb (step_ok c) (c_steps c).
@@ -640,21 +665,25 @@ Definition step_show (c : case) (so : op * obs) : shown :=
   let t := c_tree c in
   let sh (r : xres) := ShNew (match r with XOk nt => inr (x_view (c_base c) nt) | XErr e => inl e end) in
   match fst so with
-  | PruneTaxa taxa u sp lf intn => ShIn (prune_taxa taxa u sp lf intn s)
-  | PruneLabels lbs u sp lf intn => ShIn (prune_taxa_with_labels (c_ns c) (c_cs c) lbs u sp lf intn s)
-  | RetainTaxa taxa u sp => ShIn (retain_taxa (c_ns c) taxa u sp s)
-  | RetainLabels lbs u sp => ShIn (retain_taxa_with_labels (c_ns c) (c_cs c) lbs u sp s)
+  | PruneTaxa taxa u sp lf intn => ShIn (seed_err (c_seed_err c) (prune_taxa taxa u sp lf intn s))
+  | PruneLabels lbs u sp lf intn => ShIn (seed_err (c_seed_err c) (prune_taxa_with_labels (c_ns c) (c_cs c) lbs u sp lf intn s))
+  | RetainTaxa taxa u sp => ShIn (seed_err (c_seed_err c) (retain_taxa (c_ns c) taxa u sp s))
+  | RetainLabels lbs u sp => ShIn (seed_err (c_seed_err c) (retain_taxa_with_labels (c_ns c) (c_cs c) lbs u sp s))
   | FilterLeaves ok rc u sp => ShIn (filter_leaf_nodes ok rc u sp s)
   | PruneSubtree id u sp => ShIn (prune_subtree id u sp s)
-  | PruneNoTaxa rc u sp => ShIn (prune_leaves_without_taxa rc u sp s)
+  | PruneNoTaxa rc u sp => ShIn (seed_err (c_seed_err c) (prune_leaves_without_taxa rc u sp s))
   | SuppressUnif => ShIn (suppress_unifurcations s)
   | RemoveChild par id sp => ShIn (remove_child par id sp s)
   | Extract flt sp => sh (extract_tree flt sp t)
   | ExtractAt id flt sp => match find id t with Some n => sh (extract_subtree flt sp (negb (Z.eqb id (t_id t))) n) | None => sh (XErr EValue) end
   | ExtractWithTaxa taxa sp => sh (extract_tree_with_taxa taxa sp t)
   | ExtractWithoutTaxa taxa sp => sh (extract_tree_without_taxa taxa sp t)
-  | ExtractWithLabels lbs sp => sh (extract_tree_with_taxa_labels (c_ns c) lbs sp t)
-  | ExtractWithoutLabels lbs sp => sh (extract_tree_without_taxa_labels (c_ns c) lbs sp t)
+  | ExtractWithLabels lbs sp =>
+    sh (if c_lab_ns c then extract_tree_with_taxa_labels_ns (c_ns c) (c_cs c) lbs sp t
+        else extract_tree_with_taxa_labels (c_ns c) lbs sp t)
+  | ExtractWithoutLabels lbs sp =>
+    sh (if c_lab_ns c then extract_tree_without_taxa_labels_ns (c_ns c) (c_cs c) lbs sp t
+        else extract_tree_without_taxa_labels (c_ns c) lbs sp t)
   end.
 
 Definition case_show (c : case) : list shown :=
